@@ -4,6 +4,7 @@
 
 mod families;
 mod play;
+mod search;
 mod pure;
 mod textreplay;
 mod tt;
@@ -22,6 +23,8 @@ fn main() {
         "movevalue" => pure::movevalue(&args),
         "tt-seq" => tt::seq(&args),
         "tt-hammer" => tt::hammer(&args),
+        "search" => search::run(&args),
+        "search-public" => search::public(&args),
         "san" => textreplay::san(&args),
         "fen" => textreplay::fen(&args),
         "hashvar" => textreplay::hashvar(&args),
